@@ -207,6 +207,35 @@ std::string neg_ad(regs_t& r, int a, int d)
     }
 }
 
+// d := a  (plain assignment: the conversion between two register types on its own)
+template<int A, int D>
+std::string mov(regs_t& r)
+{
+    auto& a = reg<A>(r);
+    auto& d = reg<D>(r);
+    using TD = std::remove_reference_t<decltype(d)>;
+    return guarded([&] { d = static_cast<TD>(a); });
+}
+template<int A>
+std::string mov_d(regs_t& r, int d)
+{
+    switch (d) {
+    case 1: return mov<A, 1>(r);
+    case 2: return mov<A, 2>(r);
+    case 3: return mov<A, 3>(r);
+    default: return mov<A, 4>(r);
+    }
+}
+std::string mov_ad(regs_t& r, int a, int d)
+{
+    switch (a) {
+    case 1: return mov_d<1>(r, d);
+    case 2: return mov_d<2>(r, d);
+    case 3: return mov_d<3>(r, d);
+    default: return mov_d<4>(r, d);
+    }
+}
+
 // the six comparisons, as a bit mask (< 1, <= 2, > 4, >= 8, == 16, != 32)
 template<int A, int B>
 std::string cmp(regs_t& r, int& mask)
@@ -401,6 +430,13 @@ int main(int argc, char** argv)
                     continue;
                 }
                 out.put(ev("StIncDec").num("i", id).num("prog", prog).num("k", k).str("op", op).num("d", d).raw("before", before).raw("after", raw_of(r, d))
+                                .raw("all", "[" + raw_of(r, 1) + "," + raw_of(r, 2) + "," + raw_of(r, 3) + "," + raw_of(r, 4) + "]").str("out", o2).s);
+            } else if (field_s(o, "k") == "mov") {
+                int a = field_i(o, "a"), d = field_i(o, "d");
+                std::string va = raw_of(r, a), before = raw_of(r, d);
+                std::string o2 = mov_ad(r, a, d);
+                out.put(ev("StStep").num("i", id).num("prog", prog).num("k", k).str("op", "mov").str("form", "unary").num("a", a).num("b", a).num("d", d)
+                                .raw("va", va).raw("vb", va).raw("before", before).raw("after", raw_of(r, d))
                                 .raw("all", "[" + raw_of(r, 1) + "," + raw_of(r, 2) + "," + raw_of(r, 3) + "," + raw_of(r, 4) + "]").str("out", o2).s);
             } else if (field_s(o, "k") == "neg") {
                 int a = field_i(o, "a"), d = field_i(o, "d");
